@@ -3,7 +3,7 @@ from fractions import Fraction as F
 
 from sim.chart import Cfg, swarm, gen_spec
 from sim.engine import Result, Abandon, fp
-from sim.probes import Probe
+from sim.probes import Probe, Box
 from sim.semrun import Sim, TICK
 from sim.checks import common
 
@@ -18,7 +18,7 @@ RULE = ('2-4 interpreters on generated charts that send events (with parameters 
         'seeded scheduler interleaves bind / detach (chains, fan-out, cycles, self-binding; interpreter targets bound directly), queue, clock '
         'advances (each interpreter has its own clock) and execute_once on a scheduler-chosen interpreter. For every returned step of a '
         'sender the deliveries observed by the callables must be exactly (sent internal event x callable targets bound at that moment) in '
-        'sending order then binding order, as plain Event with equal name and data; interpreter targets are checked through the C05 queue '
+        'sending order then binding order, as plain Event with equal name and data (in a third of the runs some events carry the context Box, an object without value equality: the delivered parameter must be that very object); interpreter targets are checked through the C05 queue '
         'model (delivered event consumed later as an external event, FIFO, after its delay counted from the receiver time); the sender '
         'still consumes its own copy as an internal event. non-trivial = a sender step with >= 1 sent event and >= 2 bound targets; '
         'distinct = distinct (charts, topology, sender, sent events)')
@@ -42,10 +42,34 @@ class Recorder:
         self.act = None         # callback performing the planned detach on the real interpreters
 
     def __call__(self, event):
-        self.glog.append((self.name, type(event).__name__, event.name, tuple(sorted((k, repr(v)) for k, v in event.data.items()))))
+        self.glog.append((self.name, type(event).__name__, event.name, IDS[0](event.data)))
         self.count += 1
         if self.plan is not None and self.count == self.plan[0]:
             self.act(self.plan[1], self.plan[2], self.plan[3])
+
+
+class Ids:
+    """printable form of event parameters; an object without value equality (the Box of the context) is named by its identity,
+    numbered in order of first sight: a delivered parameter is the parameter that was sent, not a look-alike"""
+
+    def __init__(self):
+        self.seen = {}
+        self.keep = []
+
+    def __call__(self, data):
+        out = []
+        for k, v in sorted(data.items()):
+            if isinstance(v, Box):
+                if id(v) not in self.seen:
+                    self.seen[id(v)] = len(self.seen)
+                    self.keep.append(v)
+                out.append((k, 'Box#%d' % self.seen[id(v)]))
+            else:
+                out.append((k, repr(v)))
+        return tuple(out)
+
+
+IDS = [None]
 
 
 class Relay:
@@ -68,11 +92,14 @@ def run(ch, tier):
     sims = []
     twins = cs.flag(1, 3)      # every interpreter runs the same statechart: their sends can be equal by value
     anon = cs.flag(1, 2)
+    payload = cs.flag(1, 3)    # some sent events carry the context's list and its Box (an object without value equality)
+    IDS[0] = Ids()
     for i in range(nint):
         cfg = swarm(cs, Cfg(sends=True, notify=True, delays=True, max_states=8), tier)
         cfg.max_states = min(cfg.max_states, 8)
         cfg.max_trans = min(cfg.max_trans, 10)
         cfg.anon = anon
+        cfg.payload = payload
         sp = sims[0].sp if (twins and sims) else gen_spec(ch.s('chart%d' % i), cfg)
         P = Probe(tag='i%d' % i)
         P.uid = 100000 * (i + 1)
@@ -183,7 +210,7 @@ def run(ch, tier):
                 if (key, lst) not in mb[i]:
                     continue        # detached by a callable earlier in this very dispatch: nothing is delivered after detach
                 if key.startswith('c'):
-                    want.append((key, 'Event', e.name, tuple(sorted((k, repr(v)) for k, v in e.data.items()))))
+                    want.append((key, 'Event', e.name, IDS[0](e.data)))
                     c_ = calls[int(key[1:])]
                     mc[c_.name] += 1
                     if c_.plan is not None and mc[c_.name] == c_.plan[0]:
